@@ -601,6 +601,42 @@ fn check_loop_budget(acc: &mut Acc) {
     }
 }
 
+/// "another program ... (evaluated under the same bindings)": a reference that stands in a macro
+/// body is evaluated under the bindings in effect there, for every element anew
+fn check_program_under_loop(acc: &mut Acc) {
+    for (name, main, progs, want) in [
+        ("map", "[1, 2, 3].map(x, twice)", vec![("twice", "x * 2")], "[2, 4, 6]"),
+        ("filter", "[1, 2, 3].filter(x, big)", vec![("big", "x > 1")], "[2, 3]"),
+        ("reduce", "[1, 2, 3].reduce(a, x, step, 0)", vec![("step", "a + x")], "6"),
+        ("all", "[[2, 4].all(x, even), [2, 3].all(x, even)]", vec![("even", "x % 2 == 0")], "[true, false]"),
+        ("outside-then-inside", "[twice, [5].map(x, twice)[0], twice]", vec![("twice", "x * 2")], "[2, 10, 2]"),
+        ("two-loops", "[[1, 2].map(x, twice), [3].map(x, twice)]", vec![("twice", "x * 2")], "[[2, 4], [6]]"),
+        ("nested-loops", "[1, 2].map(x, [10, 20].map(y, sum))", vec![("sum", "x + y")], "[[11, 21], [12, 22]]"),
+        ("chain", "[1, 2].map(x, p1)", vec![("p1", "p2 + 1"), ("p2", "x * 10")], "[11, 21]"),
+    ] {
+        let r = guard(|| {
+            let mut ctx = CelContext::new();
+            for (n, s) in &progs {
+                ctx.add_program_str(n, s)?;
+            }
+            ctx.add_program_str("main", main)?;
+            let mut b = BindContext::new();
+            b.bind_param("x", CelValue::from_int(1));
+            ctx.exec("main", &b)
+        });
+        let got = show(&r);
+        acc.case("program-under-loop", main, true, "program-under-loop");
+        acc.sample(&format!("program-under-loop:{}", name), || json!({"main": main, "programs": progs, "expected": want, "actual": got}));
+        if got != want {
+            acc.fail(Failure::new(
+                format!("c12:program-under-loop:{}", name),
+                format!("{} with {:?} (x = 1 outside) gave {} instead of {}", main, progs, got, want),
+                json!({"kind": "program-under-loop", "name": name}),
+            ));
+        }
+    }
+}
+
 fn run(opts: &Opts, acc: &mut Acc) {
     if opts.is_dbg() {
         // resolution does not depend on the profile; the dbg part repeats the graph sample only
@@ -680,6 +716,7 @@ fn run(opts: &Opts, acc: &mut Acc) {
         check_chain(l, acc);
     }
     check_loop_budget(acc);
+    check_program_under_loop(acc);
 }
 
 fn replay(opts: &Opts, d: &Value, acc: &mut Acc) {
@@ -713,6 +750,7 @@ fn replay(opts: &Opts, d: &Value, acc: &mut Acc) {
         "collision" | "member" => check_collisions(acc),
         "rebinding" => check_rebinding(acc),
         "loop" => check_loop_budget(acc),
+        "program-under-loop" => check_program_under_loop(acc),
         k => {
             let _ = opts;
             acc.inconclusive.push(format!("unknown C12 replay kind {:?}", k))
